@@ -393,7 +393,7 @@ def gen_probe(structs):
     for h in sorted(set(os.path.basename(s["file"]) for s in structs.values() if s.get("file", "").endswith(".h"))):
         out.append('#include "%s"' % h)       # the headers the DWARF names as the home of each typedef
     for name, s in sorted(structs.items()):
-        lines = ["memset(p, 0, sizeof *p);"]
+        lines = ["memset(p, 0xA5, sizeof *p);"]     # padding is not zero: a wider Python read sees it
         for k, f in enumerate(s["fields"]):
             v = field_sentinel(k, f["type"])
             if v is None or f.get("bitsize"):
@@ -566,7 +566,7 @@ def as_c(raw_u, raw_d, cdesc):
     return v
 
 
-def check_functions(bound, dwarf, structmap, echo, echo_names, book, symbols):
+def check_functions(bound, dwarf, structmap, echo, echo_names, book, symbols, sites):
     thorough = TIER == "thorough"
     ialpha = INT_ALPHA_T if thorough else INT_ALPHA_Q
     falpha = FLT_ALPHA_T if thorough else FLT_ALPHA_Q
@@ -615,8 +615,10 @@ def check_functions(bound, dwarf, structmap, echo, echo_names, book, symbols):
             book.judge(nc == 0, "proto|%s|argtypes-undeclared:c-has-%d-params" % (fname, nc),
                        "%s never assigns lsci.%s.argtypes; the C function takes %d parameter(s) %s" % (mod, fname, nc, c["spelled"]), pair)
         else:
+            cs = sites.get(mod, {}).get(fname, [])
             book.judge(len(at) == nc, "proto|%s|nparams:c=%d,py=%d" % (fname, nc, len(at)),
-                       "C %s takes %d parameters %s, Python declares %d [%s]" % (fname, nc, c["spelled"], len(at), ", ".join(py_spell(t) for t in at)), pair)
+                       "C %s takes %d parameters %s, Python declares %d [%s]%s" % (fname, nc, c["spelled"], len(at), ", ".join(py_spell(t) for t in at),
+                                                                                  "; called with %s argument(s) at line %s of %s" % ("/".join(str(n) for _, n in cs), "/".join(str(l) for l, _ in cs), mod) if cs else ""), pair)
         static_bad = set()
         for k in range(min(nc, len(at))):
             book.pairs += 1
@@ -790,7 +792,7 @@ def main():
         open(ec, "w").write(etxt)
         echo = ctypes.CDLL(cc_shared(ec, os.path.join(WORK, "libc20echo.so")))
         check_structs(pystructs, structmap, dwarf, probe, book)
-        check_functions(bound, dwarf, structmap, echo, set(enames), book, symbols)
+        check_functions(bound, dwarf, structmap, echo, set(enames), book, symbols, sites)
         nfun = len(set(f for (_, f, _) in bound))
         describe = {
             "space": "%d ctypes structures (%d fields) x %d C struct typedefs in the DWARF; %d (module, function) bindings of %d distinct functions "
@@ -814,14 +816,22 @@ def main():
     for key, v in sorted(book.viol.items()):
         rp = os.path.join(repdir, hashlib.sha1(key.encode()).hexdigest()[:16] + ".txt")
         with open(rp, "w") as f:
-            f.write("# property=C20 key=%s\n# %s\npair: %s\nreplay: /usr/bin/python3 %s --repo %s --tier %s --out /tmp/c20_replay.json   (then look for the key above)\n" % (
-                key, v["msg"], v["pair"], os.path.join(HERE, "c20_check.py"), REPO, TIER))
+            f.write("# property=C20 key=%s\n# %s\npair: %s\nreplay: /usr/bin/python3 %s --repo %s --tier %s --out /tmp/c20_replay.json --show '%s'\n" % (
+                key, v["msg"], v["pair"], os.path.join(HERE, "c20_check.py"), REPO, TIER, key))
         viols.append({"key": key, "count": v["count"], "msg": v["msg"], "replay": rp, "path": v["pair"]})
     res = {"property": "C20", "tier": TIER, "seed": SEED, "workers": 1, "executions": book.calls, "pruned": 0, "transitions": book.calls,
            "checks": book.checks, "states": book.pairs, "distinct_outcomes": len(book.outcomes), "max_depth": 1, "restarts": 0, "timeouts": 0,
            "deadline_hit": False, "exhaustive": herr is None, "dev_bound": 0, "wall_s": round(time.time() - T0, 3), "harness_error": herr,
            "describe": describe, "samples": book.samples, "violations": viols}
     json.dump(res, open(OUT, "w"), indent=1)
+    show = arg("--show")
+    if show:      # "replay" of one declaration pair: verdict for that key only
+        hit = [v for v in viols if v["key"] == show]
+        for v in hit:
+            print("C20-REPLAY: FAILED %s\n  %s\n  %s" % (v["key"], v["msg"], v["path"]))
+        if not hit:
+            print("C20-REPLAY: passed (key %s not among the %d violated keys of this tree)" % (show, len(viols)))
+        sys.exit(2 if herr else (1 if hit else 0))
     sys.stderr.write("c20: pairs=%d checks=%d calls=%d outcomes=%d violations(keys)=%d wall=%.1fs%s\n" % (
         book.pairs, book.checks, book.calls, len(book.outcomes), len(viols), time.time() - T0, " HARNESS-ERROR: " + herr if herr else ""))
     for v in viols:
